@@ -74,7 +74,12 @@ def split_once(rng, lines, fname_pool, files, dirs, tags, depth=0, nest_p=0.5, p
             if sub is not None:
                 chunk = sub
         files[(d, fn)] = chunk
-        return lines[:i] + [{'k': 'include', 'text': f'#include "{fn}"'}] + lines[j:]
+        # the include line itself may be indented, use tabs, and carry a comment like any other line
+        form = rng.choice(['#include "{}"', '#include "{}"', '#include "{}" ; pulled in here', '#include\t"{}"', '  #include "{}"',
+                           '#include   "{}"   ; c', '#include "{}";c', '#include "{}" ; "quoted" comment'])
+        if form != '#include "{}"':
+            tags.add('include-line:decorated')
+        return lines[:i] + [{'k': 'include', 'text': form.format(fn)}] + lines[j:]
     return None
 
 
@@ -93,7 +98,7 @@ class C17(core.Check):
     required_buckets = {b: 3 for b in ['nesting:1', 'nesting:2', 'nesting:3', 'dirs:1', 'dirs:2', 'dirs:3', 'class:metamorphic',
                                        'class:zone-region-continuation', 'class:file-label-isolation',
                                        'neg:included-twice', 'neg:transitively-twice', 'neg:self-include', 'neg:missing-file',
-                                       'neg:ambiguous-name', 'include-while-muted', 'include-at-mute-depth>=2', 'files:3+', 'neg:file-label-of-includer',
+                                       'neg:ambiguous-name', 'include-line:decorated', 'include-while-muted', 'include-at-mute-depth>=2', 'files:3+', 'neg:file-label-of-includer',
                                        'neg:file-label-of-included', 'neg:file-label/include-top', 'neg:file-label/include-after-global-label',
                                        'neg:file-label/include-after-local-label', 'neg:file-label/include-after-org',
                                        'neg:file-label/include-nested']}
